@@ -367,6 +367,8 @@ class Scaling(Interp):
                 if a.kind == "sigabs" and abs(q - 2) < 1e-12:
                     return SV("sigpow", a.m.pow(2), src=a.src, axes=a.axes)
                 if a.kind == "sig" and abs(q - 2) < 1e-12:
+                    if getattr(self, "complex_input", False):
+                        self.definite.append(f"`{unparse(node)[:70]}` squares a complex signal: x**2 is not |x|^2 (E[x^2] vanishes for a circularly symmetric signal), so this is not its power")
                     return SV("sigpow", a.m.pow(2), tag="real-square", src=a.src, axes=a.axes)
                 if a.kind == "rnd":
                     return unk("power of a random value")
